@@ -125,7 +125,9 @@ pub fn exec(case: &Value) -> Value {
 }
 
 const NAMES: [&str; 9] = ["a", "ab", "b", "a b", "{a", "a}}b", "", "x.y", "\u{e9}"];
-const TEXTS: [&str; 14] = ["X", "", "{{b}}", "{{a}}", "Y{{ab}}Z", "}}", "{{", "a.*b", "(?i)C:\\\\Win", "{", "}", "{{a}}{{b}}", "\u{e9}", "/home/\u{65e5}"];
+const TEXTS: [&str; 20] = ["X", "", "{{b}}", "{{a}}", "Y{{ab}}Z", "}}", "{{", "a.*b", "(?i)C:\\\\Win", "{", "}", "{{a}}{{b}}", "\u{e9}", "/home/\u{65e5}",
+    // verbatim means verbatim: line ends, blanks and tabs at either end of a template's text are part of it
+    "X\n", "\n", " X ", "X\r\n", "\tX\t", "X\n\n"];
 const PIECES: [&str; 19] = ["{{a}}", "{{ab}}", "{{b}}", "{{a b}}", "{{zz}}", "{{{a}}}", "{{", "}}", "{", "}", "x", " ", "{{a}}b}}", "{{}}", "{{x.y}}", "{{{{a}}}}", "\u{e9}", "\u{65e5}\u{672c}", "{{\u{e9}}}"];
 
 pub fn gen(tier: &str, seed: u64, out: &mut dyn FnMut(Value)) {
@@ -184,7 +186,7 @@ pub fn gen(tier: &str, seed: u64, out: &mut dyn FnMut(Value)) {
                 let mut doc = vec![];
                 for _ in 0..k {
                     let i = rng.below(names.len());
-                    doc.push(json!([names.remove(i), *rng.pick(&["X", "Y", "{{a}}", "\u{e9}"])]));
+                    doc.push(json!([names.remove(i), *rng.pick(&["X", "Y", "{{a}}", "\u{e9}", "X\n", " "])]));
                 }
                 ops.push(json!({"k": "tpl", "doc": doc}));
             } else {
@@ -203,14 +205,14 @@ pub fn gen(tier: &str, seed: u64, out: &mut dyn FnMut(Value)) {
         let mut calls = vec![];
         for _ in 0..len {
             if rng.chance(2, 3) {
-                calls.push(json!(["insert", *rng.pick(&["a", "b", "ab", "c"]), *rng.pick(&["X", "Y", "Z", "{{a}}", ""])]));
+                calls.push(json!(["insert", *rng.pick(&["a", "b", "ab", "c"]), *rng.pick(&["X", "Y", "Z", "{{a}}", "", "X\n", " Y ", "\n"])]));
             } else {
                 let k = 1 + rng.below(3);
                 let mut names: Vec<&str> = vec!["a", "b", "ab", "c", "d"];
                 let mut doc = vec![];
                 for _ in 0..k {
                     let i = rng.below(names.len());
-                    doc.push(json!([names.remove(i), *rng.pick(&["P", "Q", "{{b}}"])]));
+                    doc.push(json!([names.remove(i), *rng.pick(&["P", "Q", "{{b}}", "P\n", "\tQ", "\n\n", "R\r\n"])]));
                 }
                 calls.push(json!(["extend", doc]));
             }
@@ -231,7 +233,7 @@ pub fn gen(tier: &str, seed: u64, out: &mut dyn FnMut(Value)) {
                 let mut doc = vec![];
                 for _ in 0..k {
                     // names from a small pool so that redefinitions (within a document, across documents, across calls) happen
-                    doc.push(json!([*rng.pick(&["a", "b", "c", "ab"]), *rng.pick(&["X", "Y", "{{a}}", ""])]));
+                    doc.push(json!([*rng.pick(&["a", "b", "c", "ab"]), *rng.pick(&["X", "Y", "{{a}}", "", "X\n", "\n", " Y ", "Z\n\n"])]));
                 }
                 docs.push(json!(doc));
             }
